@@ -1057,3 +1057,118 @@ def _tail(qual):
 
 
 CONTRACTS = CONTRACTS + [OF_LOOP, OF_LOOP_INDEF, _tail('valueDecoder'), _tail('indefLenValueDecoder')]
+
+
+# ---- StreamingDecoder.__iter__: one object per encoding, in order, until the stream says it is over (C05, C07) ---------------
+def _single_item(ex, substrate, asn1Spec=None, **options):
+    """call reduction of SingleItemDecoder.__call__ (its states are under contract region by region): the last thing
+    it yields is the decoded object, after consuming k >= 1 octets; underrun markers before that are relayed"""
+    if ex.choose(ex.fresh('item.raises', BoolSort()), 'item-raises'):
+        raise _Raise(ExcV('PyAsn1Error'))
+    k = ex.fresh('item.octets', I)
+    ex.assume(k >= 1)
+    substrate.fields['pos'] = substrate.fields['pos'] + k
+    substrate.fields['items'] = substrate.fields['items'] + 1
+    return Obj('Asn1Object', {'ordinal': substrate.fields['items']}, name='decoded')
+
+
+_single_item.is_generator_model = True
+
+
+def _is_eos(ex, substrate):
+    """isEndOfStream seen through iteration (contracts codec.streaming::isEndOfStream[*]): a boolean, or -- for a
+    source without data yet -- a bare None first (recorded finding KF-isEndOfStream-none: None is then followed by
+    True; the loop below looks at the first item only)"""
+    if ex.choose(ex.fresh('eos.nodata', BoolSort()), 'eos-no-data-yet'):
+        return Tup([None, True], 'list')
+    return Tup([z3.Bool('eos.answer')], 'list')
+
+
+def _iter_self(ex, env):
+    stream = Obj('Stream', {'pos': z3.Int('stream.pos0'), 'items': IntVal(0)}, name='substrate')
+    return Obj('StreamingDecoder', {'_singleItemDecoder': FnV(_single_item, '_singleItemDecoder'), '_substrate': stream,
+                                    '_asn1Spec': None, '_options': env['options']}, name='self')
+
+
+STREAM_ITER = Contract(
+    id='ber.decoder::StreamingDecoder.__iter__', file=F, qual='StreamingDecoder.__iter__', is_generator=True,
+    properties=['C05', 'C07'],
+    params=dict(options=POptions(), self=PDerived(_iter_self)),
+    calls={'self._singleItemDecoder': _single_item, 'isEndOfStream': _is_eos},
+    globals={'eosAnswer': z3.Bool('eos.answer')},
+    loops={0: Loop(invariant=['self._substrate.items >= 0'],
+                   havoc_fields=['self._substrate.pos', 'self._substrate.items'],
+                   iter_ensures=['self._substrate.items == iter_old(self._substrate.items) + 1',
+                                 # exactly one object per decoded item: none lost, none handed out twice
+                                 'iter_values() == 1'])},
+    yield_ensures=[
+        # every object handed out is the one the single-item decoder just finished, in order; an underrun of the
+        # end-of-stream test is reported as None
+        ('objects-in-order-or-none', 'y is None or isinstance(y, SubstrateUnderrunError) or '
+                                     'y.ordinal == self._substrate.items')],
+    # the iteration ends only on a definite "end of stream" answer: "no data yet" keeps it going (the next item reports
+    # the underrun)
+    exit_ensures=[('stops-only-at-end-of-stream', 'chunk is not None and chunk == True and eosAnswer')],
+    may_raise={'PyAsn1Error': True},
+    note='SingleItemDecoder.__call__ and isEndOfStream are call reductions of their own contracts')
+STREAM_ITER.multi_value = True
+CONTRACTS = CONTRACTS + [STREAM_ITER]
+
+
+# ---- CHOICE (definite length): explicit tag => decode what is inside; untagged => re-dispatch the same element ---------------
+CH_MAP = Obj('TagMap', {}, name='componentTagMap')
+CH_STATE = Obj('state', {}, name='callerState')
+
+
+def _ch_decode(ex, substrate, asn1Spec=None, tagSet=None, length=None, state=None, **options):
+    """assumed contract of decodeFun: a value of one of the types the guide allows, or PyAsn1Error"""
+    if ex.choose(ex.fresh('inner.raises', BoolSort()), 'inner-raises'):
+        raise _Raise(ExcV('PyAsn1Error'))
+    return Obj('Decoded', {'guide': asn1Spec, 'tagSetArg': tagSet, 'lengthArg': length, 'stateArg': state,
+                           'effectiveTagSet': Obj('TagSet', {}, name='component.effectiveTagSet')}, name='component')
+
+
+_ch_decode.is_generator_model = True
+
+
+def _ch_spec(ex, env):
+    def clone(ex2, self, *a, **kw):
+        def eq(ex3, me, other):
+            if isinstance(other, Obj) and other.name == 'tagSet':
+                return z3.Bool('choice.isTagged')
+            return ex3.identical(me, other)
+
+        def by_type(ex3, me, tagSet, value, *a2, **kw2):
+            if ex3.choose(ex3.fresh('choice.refused', BoolSort()), 'alternative-refused'):
+                raise _Raise(ExcV('PyAsn1Error'))
+            me.fields['chosenBy'] = tagSet
+            me.fields['chosen'] = value
+        return Obj('Choice', {'tagSet': Obj('TagSet', {}, {'__eq__': eq}, name='choice.tagSet'), 'componentTagMap': CH_MAP,
+                              'chosen': None, 'chosenBy': None, 'cloneOf': self}, {'setComponentByType': by_type},
+                   name='asn1Object')
+    return Obj('Choice', {}, {'clone': clone}, name='asn1Spec')
+
+
+CHOICE_DEC = Contract(
+    id='ber.decoder::ChoicePayloadDecoder.valueDecoder', file=F, qual='ChoicePayloadDecoder.valueDecoder',
+    is_generator=True, properties=['C09', 'C10', 'C12', 'C13'],
+    params=dict(self=PObj('ChoicePayloadDecoder'), substrate=PConst(Obj('Stream', {}, name='substrate')),
+                asn1Spec=PDerived(_ch_spec), tagSet=PConst(Obj('TagSet', {}, name='tagSet')), length=PInt(),
+                state=PConst(CH_STATE), decodeFun=PConst(FnV(_ch_decode, 'decodeFun')), substrateFun=PConst(None),
+                options=POptions()),
+    globals={'isTagged': z3.Bool('choice.isTagged'), 'componentTagMap': CH_MAP, 'callerState': CH_STATE},
+    calls={'decodeFun': _ch_decode, 'self._passAsn1Object': lambda ex, o, options: options},
+    yield_ensures=[
+        ('fresh-object-not-the-guide', 'y is not asn1Spec and y.cloneOf is asn1Spec'),
+        ('alternative-chosen-by-the-tags-of-what-was-decoded', 'y.chosenBy is y.chosen.effectiveTagSet'),
+        ('decoded-under-the-alternatives-map', 'y.chosen.guide is componentTagMap'),
+        # X.690 8.13: an explicitly tagged CHOICE wraps the alternative's own encoding ...
+        ('tagged-choice-decodes-the-inner-element', 'isTagged ==> (y.chosen.tagSetArg is None and y.chosen.lengthArg is None '
+                                                    'and y.chosen.stateArg is None)'),
+        # ... an untagged one *is* the alternative's encoding: same tags, same length, same dispatcher state
+        ('untagged-choice-re-dispatches-this-element', '(not isTagged) ==> (y.chosen.tagSetArg is tagSet and '
+                                                       'y.chosen.lengthArg == length and y.chosen.stateArg is callerState)')],
+    exit_ensures=[('one-result', 'nyields() == 1')],
+    may_raise={'PyAsn1Error': True},
+    note='decodeFun, asn1Spec.clone and setComponentByType are assumed models; _passAsn1Object only adds an option')
+CONTRACTS = CONTRACTS + [CHOICE_DEC]
